@@ -544,6 +544,91 @@ def phase_go_strings(chk, n):
             drift.append((payload, 'bytes of the model and of the real Go generator differ on a wire name outside the identifier alphabet'))
     return drift
 
+
+TS_IMPORT_STMT = re.compile(r'import\s*\{([^}]*)\}\s*from\s*"([^"\n]*)"\s*;')
+TS_IMPORT_NAMES = re.compile(r'^\s*[A-Za-z_$][A-Za-z0-9_$]*(\s*,\s*[A-Za-z_$][A-Za-z0-9_$]*)*\s*,?\s*$')
+
+
+def import_block_grammar(lang, text):
+    """folder-output files: every import statement is one of the language (TypeScript: import { A, B } from "./m"; - a comma
+    between any two names, whatever the line breaks; Kotlin: one `import a.b.C` per line)"""
+    bad = []
+    if lang == 'typescript':
+        stmts = TS_IMPORT_STMT.findall(text)
+        for names, mod in stmts:
+            if names.strip() and not TS_IMPORT_NAMES.match(names):
+                bad.append(f'import list of "{mod}" is not a comma-separated list of names: {names.strip()[:120]!r}')
+        nimport = len(re.findall(r'^\s*import\b', text, re.M))
+        if nimport != len(stmts):
+            bad.append(f'{nimport} lines start an import but {len(stmts)} complete import statements were found')
+    if lang == 'kotlin':
+        for ln in text.split('\n'):
+            if ln.startswith('import ') and not re.fullmatch(r'import [A-Za-z_][A-Za-z0-9_]*(\.[A-Za-z_][A-Za-z0-9_]*)*', ln.rstrip()):
+                bad.append(f'not an import directive: {ln[:120]!r}')
+    return bad
+
+
+def phase_folder(chk, n):
+    """folder-output mode through the real binary: a library crate with 1-40 types (short and long names) and an application crate
+    that imports them - explicitly in one or several use statements, or by a glob - and refers to all of them; TypeScript and
+    Kotlin print import blocks, every language prints per-crate files.  Judged: the extracted reference lexer on every real file,
+    the import statements against the grammar of the language (seeded C10_f: long TypeScript import lists wrapped over several
+    lines, the comma lost at each break), the usual template / head-grammar observations."""
+    import subprocess
+    rng = chk.rng
+    for k in range(n):
+        nt = rng.choice([1, 2, 5, 12, 20, 30, 40])
+        names = []
+        while len(names) < nt:
+            nm = rng.choice(['Item', 'Node', 'Account', 'Configuration', 'VeryLongTypeNameForImports', 'Shape', 'Kind', 'Payload', 'Settings', 'Envelope']) + str(len(names))
+            names.append(nm)
+        lib = ''.join(f'#[typeshare]\npub struct {nm} {{ pub x: u8 }}\n' for nm in names)
+        how = rng.choice(['one-use', 'many-uses', 'glob', 'paths'])
+        if how == 'one-use':
+            uses = 'use lib_crate::{' + ', '.join(names) + '};\n'
+        elif how == 'many-uses':
+            uses = ''.join(f'use lib_crate::{nm};\n' for nm in names)
+        elif how == 'glob':
+            uses = 'use lib_crate::*;\n'
+        else:
+            uses = ''
+        q = 'lib_crate::' if how == 'paths' else ''
+        app = uses + '#[typeshare]\npub struct App {\n' + ''.join(f'    pub f{i}: {q}{nm},\n' for i, nm in enumerate(names)) + '}\n'
+        d = vf.tmpdir('verif-c10-')
+        for c, src in (('lib-crate', lib), ('app', app)):
+            (d / 'ws' / c / 'src').mkdir(parents=True)
+            (d / 'ws' / c / 'src' / 'lib.rs').write_text(src)
+        for lang, extra in (('typescript', []), ('kotlin', ['--java-package', 'com.p']), ('swift', []), ('python', [])):
+            out = d / f'out_{lang}'
+            out.mkdir()
+            p = subprocess.run(['timeout', '30', str(vf.TYPESHARE), '--lang', lang] + extra + ['--output-folder', str(out), str(d / 'ws')], capture_output=True, text=True)
+            chk.evaluations += 1
+            chk.count(f'folder.{lang}')
+            payload = {'phase': 'folder', 'lang': lang, 'imports_written_as': how, 'types': nt, 'lib-crate/src/lib.rs': lib, 'app/src/lib.rs': app}
+            if p.returncode != 0:
+                chk.violation(f'folder-{k}-{lang}', dict(payload, rc=p.returncode, stderr=p.stderr[-300:]), f'{lang}: the real binary fails on a plain two-crate workspace in folder mode')
+                continue
+            files = {f.name: f.read_text(errors='replace') for f in sorted(out.iterdir()) if f.is_file()}
+            lex = vf.model([f'(c10_lex {lang} {S(t)})' for t in files.values()])
+            for (fn, t), lx in zip(files.items(), lex):
+                fails, why = [], []
+                if lx[0] != 'balanced':
+                    fails.append('lex')
+                    why.append(f'lexer: {lx[0]} in {fn}')
+                ib = import_block_grammar(lang, t)
+                if ib:
+                    fails.append('import-grammar')
+                    why += [f'{fn}: {x}' for x in ib[:3]]
+                hg = head_grammar(lang, t)
+                if hg:
+                    fails.append('head-grammar')
+                    why += hg[:2]
+                if fails:
+                    chk.violation(f'folder-{k}-{lang}', dict(payload, file=fn, text=t[:3000], failures=fails, why=why), f'{lang} folder-mode file {fn} is not well-formed: ' + '; '.join(why)[:400])
+                    break
+            else:
+                chk.nontrivial.add(('folder', lang, how, nt))
+
 # label None = witness of a REPAIRED class (fixed in /repo): the case is in no class and every judgement must pass
 WITNESSES = [
     ('scala', {'package': 'onepassword'}, '#[typeshare]\npub struct A { pub x: String }\n', None),
@@ -602,7 +687,7 @@ def run(chk):
         'doc text is restricted to the safe predicate c10_doc_ok (doc-induced breakage is C15)',
         'a Python NameError at import is name resolution (C09 / C11 / C12) and a duplicate Enum member name is a naming collision (C02): both counted, not judged here; any other import failure is judged',
     ]
-    chk.prepare(need_cli=False)
+    chk.prepare(need_cli=True)
     if not chk.harness_ok:
         return
     rng = chk.rng
@@ -645,6 +730,8 @@ def run(chk):
                 cases.append((lang, cfg, src, {'seed': p.seed}))
     drift += judge(chk, cases, 'gen')
     drift += phase_go_strings(chk, 60 if chk.tier == 'quick' else 1200)
+    if chk.cli_ok:
+        phase_folder(chk, 14 if chk.tier == 'quick' else 150)
     # 3. snapshot inputs
     snaps = []
     for f in sorted(glob.glob(str(vf.REPO / 'core' / 'data' / 'tests' / '*' / 'input.rs'))):
